@@ -43,13 +43,48 @@ struct ShortReader<'a> {
 #[cfg(feature = "full")]
 impl<'a> std::io::Read for ShortReader<'a> {
     fn read(&mut self, buf: &mut [u8]) -> std::io::Result<usize> {
-        let want = self.sizes[self.k % self.sizes.len()].max(1);
         self.k += 1;
+        // EINTR between successful short reads (must be retried without losing data)
+        if self.k % 3 == 2 && self.pos < self.data.len() {
+            return Err(std::io::Error::new(std::io::ErrorKind::Interrupted, "injected EINTR"));
+        }
+        let want = self.sizes[self.k % self.sizes.len()].max(1);
         let n = want.min(buf.len()).min(self.data.len() - self.pos);
         buf[..n].copy_from_slice(&self.data[self.pos..self.pos + n]);
         self.pos += n;
         Ok(n)
     }
+}
+
+/// A seekable file of at least 16 KiB that cannot be memory-mapped (sysfs binary attributes fail
+/// with ENODEV), with its contents as read by std; None if this system has none or it is unstable.
+pub fn unmappable_file() -> Option<(&'static std::path::Path, &'static [u8])> {
+    static CELL: std::sync::OnceLock<Option<(std::path::PathBuf, Vec<u8>)>> = std::sync::OnceLock::new();
+    CELL.get_or_init(|| {
+        let mut candidates: Vec<std::path::PathBuf> = vec!["/sys/kernel/btf/vmlinux".into()];
+        if let Ok(rd) = std::fs::read_dir("/sys/kernel/btf") {
+            for e in rd.flatten().take(40) {
+                candidates.push(e.path());
+            }
+        }
+        for c in candidates {
+            let (Ok(a), Ok(b)) = (std::fs::read(&c), std::fs::read(&c)) else { continue };
+            if a != b || a.len() < 16384 || a.len() > (6 << 20) {
+                continue;
+            }
+            let Ok(f) = std::fs::File::open(&c) else { continue };
+            // really unmappable?
+            let r = unsafe { libc::mmap(core::ptr::null_mut(), a.len(), libc::PROT_READ, libc::MAP_SHARED, std::os::unix::io::AsRawFd::as_raw_fd(&f), 0) };
+            if r != libc::MAP_FAILED {
+                unsafe { libc::munmap(r, a.len()) };
+                continue;
+            }
+            return Some((c, a));
+        }
+        None
+    })
+    .as_ref()
+    .map(|(p, b)| (p.as_path(), &b[..]))
 }
 
 fn scratch_dir() -> std::path::PathBuf {
@@ -125,6 +160,8 @@ fn run_inner(rng: &mut Rng, cfg: &Cfg, tag: u64, rep: &mut Report) -> Outcome {
                 };
                 let h = &mut slots[si].h;
                 let name: &str;
+                #[allow(unused_mut)]
+                let mut special: Option<&'static [u8]> = None;
                 let r: Result<Result<(), String>, String> = match kind {
                     0..=4 => {
                         name = "update";
@@ -174,6 +211,22 @@ fn run_inner(rng: &mut Rng, cfg: &Cfg, tag: u64, rep: &mut Report) -> Outcome {
                         })
                     }
                     #[cfg(feature = "full")]
+                    13 if rng.chance(1, 12) && unmappable_file().is_some() => {
+                        // a seekable file >= 16 KiB whose mmap() fails: must fall back to reads from
+                        // the start of the file
+                        let (path, bytes) = unmappable_file().unwrap();
+                        let rayon = rng.chance(1, 2);
+                        name = if rayon { "update_mmap_rayon(unmappable)" } else { "update_mmap(unmappable)" };
+                        special = Some(bytes);
+                        guarded(|| {
+                            if rayon {
+                                h.update_mmap_rayon(path).map(|_| ()).map_err(|e| e.to_string())
+                            } else {
+                                h.update_mmap(path).map(|_| ()).map_err(|e| e.to_string())
+                            }
+                        })
+                    }
+                    #[cfg(feature = "full")]
                     13 => {
                         let rayon = rng.chance(1, 2);
                         name = if rayon { "update_mmap_rayon" } else { "update_mmap" };
@@ -202,7 +255,10 @@ fn run_inner(rng: &mut Rng, cfg: &Cfg, tag: u64, rep: &mut Report) -> Outcome {
                     Ok(Err(e)) => fail!(format!("{}/error", name), "{}({}) failed: {}", name, n, e),
                     Err(msg) => fail!(format!("{}/panic", name), "{}({}) panicked: {}", name, n, msg),
                 }
-                slots[si].m.push(src);
+                match special {
+                    Some(bytes) => slots[si].m.push(bytes),
+                    None => slots[si].m.push(src),
+                }
                 absorbed = Some((n, name));
                 ops.push(format!("s{}.{}({})", si, name, n));
                 rep.seen("entry_points", name);
